@@ -467,7 +467,8 @@ End Facts.
 (* ---------- from_json_sem ---------- *)
 (* guard of from_json_sem: no All(...) rebuilt by from_json has two arguments merged by the
    set() in All.__init__ (true whenever the rebuilt arguments have pairwise distinct ids).  It is exactly what
-   excludes the evaluation-changing face of finding D15 (Properties/C16.v, C16_merge_refuted). *)
+   excluded the evaluation-changing face finding D15 had before fix D16; it now holds for every document
+   (JsonLink.v, Properties/C16.v C16_guards_hold / C16_merge_repaired). *)
 Fixpoint all_unmerged (genid : genid_t) (cfg : bool) (n : nat) (j : json) : bool :=
   match n with
   | O => true
